@@ -89,6 +89,11 @@ def run(rep):
              'tuple on every exit, hit or miss, and _subscribe subscribes to EVERY '
              'required specification not yet recorded (lookupAll()/names() recompute '
              'from their own cache; shared with C04 R04.7 / C05 INV-4)', floor=2)
+    rep.rule('R08.9', 'one calling convention per entry point: every C entry '
+             '(LookupBase and VerifyingBase tables) takes the parameters of its '
+             'Python twin - names, order, optional ones - so a call spelled with '
+             'keywords reaches the same lookup on every implementation (shared '
+             'with C10 F1)', floor=8)
     rep.decline('none - relative to C04/C05/C07')
 
     lookup = find_def(mod, 'LookupBase.lookup')
@@ -189,3 +194,5 @@ def run(rep):
     from .C05 import subscribe_on_all_exits, subscribe_all_spec
     subscribe_on_all_exits(rep, mod, 'R08.8', only=('_uncached_lookup',))
     subscribe_all_spec(rep, mod, 'R08.8')
+    from .C10 import lookup_signatures
+    lookup_signatures(rep, cside.cu(rep), mod, 'R08.9')
